@@ -537,6 +537,30 @@ impl Monitors {
             self.alert("C05", format!("rejected-message-changed-state||{class}"), format!("node {node}: a rejected message of class {class} changed view/phase/high vote/certificates: {:?}/{:?} -> {:?}/{:?}", pre.view, pre.phase, post.view, post.phase));
         }
         if accepted {
+            // the specification processes the justification of every accepted proposal / new-view in full: the highest commit
+            // certificate becomes max(held, the certificate in the justification - for a timeout certificate its embedded
+            // highest commit certificate), the highest timeout certificate max(held, the justification) - also when the
+            // timeout certificate itself is not newer than the one held
+            let just = match m {
+                ChonkyMsg::LeaderProposal(p) => Some(&p.justification),
+                ChonkyMsg::ReplicaNewView(nv) => Some(&nv.justification),
+                _ => None,
+            };
+            if let Some(j) = just {
+                let (jc, jt) = match j {
+                    ProposalJustification::Commit(q) => (Some(q.view().number.0), None),
+                    ProposalJustification::Timeout(t) => (t.high_qc().map(|q| q.view().number.0), Some(t.view.number.0)),
+                };
+                let (pre_t, post_t) = (triple_of_snap(pre), triple_of_snap(post));
+                let (want_c, want_t) = (pre_t.cqc.max(jc), pre_t.tqc.max(jt));
+                self.count("certificates_after_accepted_justification_checked");
+                if jt.is_some() && jt <= pre_t.tqc && jc > pre_t.cqc {
+                    self.count("accepted_timeout_certificates_not_newer_than_held_but_carrying_a_newer_commit_certificate");
+                }
+                if post_t.cqc != want_c || post_t.tqc != want_t {
+                    self.alert("C05", format!("certificates-after-accepted-justification||{class}"), format!("node {node} held commit/timeout certificates of views {:?}/{:?}, accepted a message of class {class} whose justification carries {:?}/{:?}, and now holds {:?}/{:?}; the specification prescribes {:?}/{:?}", pre_t.cqc, pre_t.tqc, jc, jt, post_t.cqc, post_t.tqc, want_c, want_t));
+                }
+            }
             match m {
                 ChonkyMsg::LeaderProposal(p) => {
                     // the vote is for exactly the block the justification implies (re-proposal) or the proposed payload
